@@ -471,6 +471,12 @@ def run_unit(name, prop):
         if fname.startswith("canary_") or fname == "main":
             continue
         ftags = tags_in(a, b)
+        if fname.endswith("_body"):
+            # R5 pair: the lifted closure body `f_body` establishes what the wrapper `f` (the text of with_transaction*) passes on, so a
+            # failure inside the body also counts against every property with a clause on the wrapper's contract
+            for (wname, wa, wb, _wisp) in exts:
+                if wname == fname[:-5]:
+                    ftags = ftags + tags_in(wa, wb)
         props_of_fn = set(pp for pp, _, _ in ftags)
         is_repo_fn = any(u.lines[ln - 1][1][0] == "repo" for ln in range(a, min(b, len(u.lines)) + 1))
         if is_repo_fn:
